@@ -16,14 +16,26 @@ import explore as ex
 from harness.common import *
 
 ID = 'C01'
-BOUNDS = {'quick': {'N': 3, 'NUM': 5}, 'thorough': {'N': 4, 'NUM': 7}}
+BOUNDS = {'quick': {'N': 3, 'NUM': 5, 'DIGITS': (27, 28, 29, 30, 31)}, 'thorough': {'N': 4, 'NUM': 7, 'DIGITS': tuple(range(8, 42))}}
 
 
-def configs(N, NUM=0):
+def configs(N, NUM=0, DIGITS=()):
     cfgs = [(L, sh) for L in range(N + 1) for sh in compositions(L)]
     # number-shaped inputs: longer, every byte symbolic within the number-token alphabet 0-9 . e E + -
     cfgs += [(L, 'num') for L in range(N + 1, NUM + 1)]
+    # long literals around the 96-bit mantissa limit: every byte a symbolic digit, optionally one '.' at a symbolic place
+    cfgs += [(L, 'digits') for L in DIGITS]
     return cfgs
+
+
+def digit_constraints(px, bs):
+    dot = px.bv('dotpos', 8)        # index of the single '.', or >= len for none
+    cs = []
+    for i, b in enumerate(bs):
+        isd = z3.And(z3.UGE(b, z3.BitVecVal(0x30, 8)), z3.ULE(b, z3.BitVecVal(0x39, 8)))
+        cs.append(z3.If(dot == i, b == 0x2E, isd) if 0 < i < len(bs) - 1 else isd)
+    cs.append(dot != 0)
+    return cs
 
 
 def numeric_constraints(bs):
@@ -42,7 +54,7 @@ def prepare(it):
 
 
 def harness(it, px, params):
-    cfgs = configs(params['N'], params.get('NUM', 0))
+    cfgs = configs(params['N'], params.get('NUM', 0), params.get('DIGITS', ()))
     k = pick_config(px, 'cfg', len(cfgs))
     L, shape = cfgs[k]
     bs = [px.bv('b%d' % i, 8) for i in range(L)]
@@ -51,6 +63,11 @@ def harness(it, px, params):
             px.add(c)
         shape = (1,) * L
         px.cover('numeric-family')
+    elif shape == 'digits':
+        for c in digit_constraints(px, bs):
+            px.add(c)
+        shape = (1,) * L
+        px.cover('long-literal-family')
     else:
         for c in utf8_constraints(bs, shape):
             px.add(c)
@@ -121,11 +138,28 @@ def native_outcome(obs, stage):
 
 def run(ctx):
     N = BOUNDS[ctx.tier]['N']
-    params = {'N': N, 'NUM': BOUNDS[ctx.tier]['NUM'], 'seed': ctx.seed, 'timeout_ms': 10000 if ctx.tier == 'quick' else 60000,
+    params = {'N': N, 'NUM': BOUNDS[ctx.tier]['NUM'], 'DIGITS': BOUNDS[ctx.tier]['DIGITS'], 'seed': ctx.seed, 'timeout_ms': 10000 if ctx.tier == 'quick' else 60000,
               'step_limit': 400000}
     eng = ctx.engine('dev')
     recs, summ = ex.explore(eng, harness, params, prepare=prepare)
-    return judge(ctx, recs, summ, params)
+    res = judge(ctx, recs, summ, params)
+    # repetition families: nesting depth, chain length and run time as a function of the input size
+    from harness import c01deep
+    f2, inc2, ev2, summ2 = c01deep.run(ctx, eng)
+    have = set(f['key'] for f in res['findings'])
+    res['findings'] += [f for f in f2 if f['key'] not in have]
+    res['inconclusive'] += inc2
+    cov = res['evidence']['coverage']
+    cov['repetition_families'] = ev2
+    cov['states'] += summ2['paths']
+    cov['transitions'] += summ2['decisions']
+    cov['traces_validated_against_impl'] += ev2['native_runs']
+    cov['exhaustive'] = cov['exhaustive'] and not inc2 and not ev2['truncated']
+    cov['functions_encoded'] = sorted(set(cov['functions_encoded']) | set(summ2['bodies_used']))
+    cov['library_models_used'] = sorted(set(cov['library_models_used']) | set(summ2['models_used']))
+    res['summary'] = res['summary'].rsplit(' findings=', 1)[0] + ' findings=%d repetition-paths=%d growth-classes=%d' % (
+        len(res['findings']), summ2['paths'], ev2['growth_classes_seen'])
+    return res
 
 
 def judge(ctx, recs, summ, params):
@@ -226,7 +260,8 @@ def judge(ctx, recs, summ, params):
             'mir_steps': summ['steps'], 'max_decision_depth': summ['max_depth'], 'workers': summ['workers'],
             'functions_encoded': summ['bodies_used'], 'library_models_used': summ['models_used'],
             'covers_hit': sorted(covers),
-            'outside': ['inputs longer than %d bytes' % params['N'], 'stack exhaustion (no stack model; recursion depth is unbounded in the parser and is not decided)',
+            'outside': ['inputs longer than %d bytes other than the number-shaped, long-literal and repetition families' % params['N'],
+                        'stack use in bytes (the encoder counts frames; exhaustion itself is decided by the native replay at scale)',
                         'contexts other than the empty one for execute()'],
         },
         'assumptions': ['input is well-formed UTF-8 (guaranteed by &str)',
